@@ -109,8 +109,9 @@ func (p *Provider) runFullScan(ctx context.Context) error {
 		if err != nil {
 			if errors.Is(err, decoders.ErrAmmoLimit) || errors.Is(err, decoders.ErrPassLimit) {
 				err = nil
-				if delivered == 0 && len(p.Config.ChosenCases) > 0 {
-					err = decoders.ErrNoAmmo // chosencases matched nothing; as the preloaded provider
+				if delivered == 0 {
+					// no ammo in the file, or chosencases matched nothing; as the preloaded provider
+					err = decoders.ErrNoAmmo
 				}
 			}
 			return err
